@@ -265,6 +265,19 @@ func main() {
 	for _, op := range fixedOps {
 		emit(op, "fixed/"+strings.Fields(op)[0])
 	}
+	// sizes at the sign / width boundaries of the 2-byte framing of protocol <= 2 (one element of 32767 / 32768 /
+	// 65535 / 65536 bytes) and the same under protocol 3
+	for _, p := range []int{2, 3} {
+		for _, sz := range []int{32767, 32768, 65535, 65536} {
+			v := &valgen.Val{Tag: "sl", GT: &valgen.GT{Name: "bytes"}, Elems: []*valgen.Val{{Tag: "b", Bytes: r.Bytes(sz)}}}
+			tv := fmt.Sprintf("%d list blob %s", p, v.String())
+			ans := emit("enc "+tv, "enc/big-element")
+			emit("spec "+tv, "spec/big-element")
+			if strings.HasPrefix(ans, "ok ") {
+				emit(fmt.Sprintf("dec %d list blob %s slice bytes", p, ans[3:]), "dec/big-element")
+			}
+		}
+	}
 	for i := 0; i < n; i++ {
 		depth := 0
 		switch x := r.Intn(10); {
